@@ -1083,7 +1083,8 @@ func (r *Raft) sendAppendEntries(id string, address string, numResponses *int, r
 
 	// If the majority of cluster acknowledges the request, this node is a legitimate leader.
 	// Try to apply pending read-only operations.
-	if numResponses != nil {
+	// Only the responses of voting members count.
+	if numResponses != nil && r.isVoter(id) {
 		*numResponses += 1
 		if r.hasQuorum(*numResponses) {
 			r.tryApplyReadOnlyOperations(round)
